@@ -98,9 +98,9 @@ pub fn monitor(c: &mut RegCheck, st: &Step) {
             let list: Vec<i64> = if r.algs.is_empty() { vec![-7, -257] } else { r.algs.clone() };
             let supported = list.contains(&-7);
             let shape = format!(
-                "reg|ch{}|u{}|{:?}|{}|idl{:?}|c{}|rp{}|p{:?}|pos{}",
+                "reg|ch{}|u{}|{:?}|{}|idl{:?}|c{}|rp{}|p{:?}|att{}|pos{}",
                 r.challenge.len(), r.user_id.len().min(65), r.algs, r.cd.name(), st.cfg.id_len, st.cfg.counters,
-                r.rp_id.is_some(), r.origin.port, st.index.min(20)
+                r.rp_id.is_some(), r.origin.port, r.attestation, st.index.min(20)
             );
             match res {
                 Err(e) => {
